@@ -276,6 +276,21 @@ func tryReplayRegion(prog *Program, cs *ContractSet, prop string, r ObResult, re
 	for _, max := range []int{6, 16, 40} {
 		cases = append(cases, ob.SplitPC(max)...)
 	}
+	candidate := r.Res.Status == "timeout" || r.Res.Status == "unknown"
+	if candidate {
+		cases = nil
+		for _, radius := range []int{2, 4, 8} {
+			res := Solve(ob.ScriptCandidate(radius, nil, gv), 15, false)
+			if res.Status == "sat" && (len(res.Model) > 0 || len(gv) == 0) {
+				model = res.Model
+				if model == nil {
+					model = map[string]string{}
+				}
+				break
+			}
+			lastRaw = res.Status
+		}
+	}
 	for ci, cse := range cases {
 		if ci > 30 {
 			break
@@ -711,7 +726,9 @@ func tryReplayRegion(prog *Program, cs *ContractSet, prop string, r ObResult, re
 		return
 	}
 	rep.Replayed = violated
-	if violated {
+	if violated && candidate {
+		rep.Note = "the obligation is undecided by the solvers (" + r.Res.Status + "); a candidate entry state from a reduced query was run through the region's real statements and VIOLATES a clause (all evaluable preconditions hold): failing input found"
+	} else if violated {
 		rep.Note = "counterexample of the verifier replayed on the region's real statements (copied verbatim into a test): a clause is violated on the concrete entry state below (model)"
 	} else if !completed {
 		log = "the region left through a return/break/continue before its end on the model's entry state; the postconditions speak about the normal exit; inconclusive\n" + log
